@@ -73,7 +73,11 @@ func runC06(cx *ctx) {
 			need += d
 		}
 		if err0 != nil || need == 0 {
-			panic(fmt.Sprint("short-tape setup: ", err0, need))
+			// (an implementation that reads ahead more than the tape holds: nothing to enumerate here; the other
+			// parts of the suite still run)
+			msg := fmt.Sprint("Encrypt under a 400-byte tape: ", err0, ", bytes drawn: ", need)
+			cx.ru.Do(func() *h.Case { return &h.Case{Kind: "rand-fails-setup", Impl: msg, NonTrivial: false, Note: msg} })
+			continue
 		}
 		for L := 0; L < need; L++ {
 			if cx.quick && L%3 != 0 && L != need-1 && L != 15 && L != 16 {
